@@ -35,3 +35,11 @@ MN(v1,[1,0],{})|R(v1.k0,v1.k1) ||| MATCH (v1:L1:L0) RETURN v1.k0 AS c0, v1.k1 AS
 MN(v1,[1],{})|R(v1.k0,v1.k1) ||| MATCH (v1:L1) RETURN v1.k0 AS c0, v1.k1 AS c1
 MP((v1,[0,1],{k0:#I7}),0,(v2,[1],{k0:#I7})) ||| MERGE (v1:L0:L1 {k0: 7})-[:T0]->(v2:L1 {k0: 7})
 MP((v1,[1,0],{k0:#I7}),0,(v2,[1],{k0:#I7})) ||| MERGE (v1:L1:L0 {k0: 7})-[:T0]->(v2:L1 {k0: 7})
+!reset
+# 6. a later row re-evaluates the pattern against the current graph (class of the seeded change C04-b): literal-only MERGE
+#    pattern, multi-row input, ON CREATE / ON MATCH rewrite the key; the bound node is returned per row.
+U([#I1,#I2,#I3],v0);MG((v1,[0],{k0:#I0}),[p(v1,k0,#I1),p(v1,k1,v0)],[])|R(v0,v1) ||| UNWIND [1, 2, 3] AS v0 MERGE (v1:L0 {k0: 0}) ON CREATE SET v1.k0 = 1, v1.k1 = v0 RETURN v0 AS c0, v1 AS c1
+C((_,[0],{k0:#I0})) ||| CREATE (:L0 {k0: 0})
+U([#I10,#I20],v0);MG((v1,[0],{k0:#I0}),[p(v1,k0,#I1),p(v1,k1,v0)],[p(v1,k0,#I1),p(v1,k1,v0)])|R(v0,v1) ||| UNWIND [10, 20] AS v0 MERGE (v1:L0 {k0: 0}) ON CREATE SET v1.k0 = 1, v1.k1 = v0 ON MATCH SET v1.k0 = 1, v1.k1 = v0 RETURN v0 AS c0, v1 AS c1
+U([#I5,#I6,#I7],v0);MG((v1,[1],{k0:#I0}),[p(v1,k1,#I0)],[p(v1,k1,add(v1.k1,#I1))]) ||| UNWIND [5, 6, 7] AS v0 MERGE (v1:L1 {k0: 0}) ON CREATE SET v1.k1 = 0 ON MATCH SET v1.k1 = (v1.k1 + 1)
+U([#I1,#I2],v0);MG((v1,[2],{k0:#I0}),[],[]);WI([v1,v0],{});D(1,v1) ||| UNWIND [1, 2] AS v0 MERGE (v1:L2 {k0: 0}) WITH v1, v0 DETACH DELETE v1
